@@ -78,7 +78,7 @@ def _sync_gen(c):
                                    "theorems of coq/ws no longer check", "log_tail": log_})
 
 
-def _run(c, prop, parts, quick, thorough):
+def _run(c, prop, parts, quick, thorough, extra=None):
     _sync_gen(c)
     c.coq(["ws"], prop, "WsC")
     c.trusted += WS_TB
@@ -86,6 +86,8 @@ def _run(c, prop, parts, quick, thorough):
     if c.tier == "thorough":
         args.append("-thorough")
     c.harness("wscodec", args, overlay=True, model=MODEL, timeout=3000)
+    if extra:
+        extra(c)
     c.finish()
 
 
@@ -93,7 +95,15 @@ def c12(c):
     c.assumptions += ["the round-trip theorems cover any list of uncompressed or (under the law 'reading the decompressor to its end gives the message') compressed "
                       "messages written by write_message, with ping/pong frames inserted anywhere, fed in any segmentation to an idle receiver whose "
                       "MessageLengthLimit the messages respect and whose ReadLimit is off; theorem hypotheses: fewer than 2^62 payload bytes in total"]
-    _run(c, "C12", "12", 1100, 60000)
+    c.assumptions += ["queued (asynchronous send-queue) write mode with a bounded queue: the held-socket tier of cmd/wsconc (the C14 component: real websocket.Conn, admission "
+                      "grid bound x compression level x payload class x lengths around frame multiples x room) is run for C12 as well: a WriteMessage that "
+                      "returned nil must appear on the wire as one whole frame sequence, a refused one must leave nothing (otherwise the peer cannot deliver "
+                      "the following messages)"]
+
+    def send_queue_tier(c):
+        import props_wsconc
+        c.harness("wsconc", ["-n", "0", "-qn", n(c, 400, 5000)], overlay=False, model=props_wsconc.MODEL, timeout=3000)
+    _run(c, "C12", "12", 1100, 60000, extra=send_queue_tier)
 
 
 def c13(c):
